@@ -421,6 +421,7 @@ class Plugin:
         cfg['base_opts'] = {'norm': True}
         cfg['opt_rate'] = rng.choice([0.0, 0.3, 0.6])
         cfg['p_same_cat'] = rng.choice([0.7, 0.85, 0.95])
+        cfg['p_mb_prefix_all'] = rng.choice([0.0, 0.0, 0.0, 0.4])
         cfg['p_edge'] = rng.choice([0.0, 0.0, 0.1, 0.3])  # edits of a first/last element whose neighbour is on another line
         if rng.random() < 0.5:  # swarm: half of the runs use a random re-weighting of the edit kinds (some switched off)
             from .ops import DEFAULT_WEIGHTS
@@ -431,7 +432,14 @@ class Plugin:
         return cfg
 
     def program(self, rng, cfg):
-        return progen.gen_program(rng, cfg, self.run.stats)
+        src = progen.gen_program(rng, cfg, self.run.stats)
+        if cfg.get('p_mb_prefix_all') and not cfg.get('unique'):
+            # multi-byte ';' prefixes: what follows on the line has byte columns != character columns
+            new = progen.mb_prefix(rng, src, cfg['p_mb_prefix_all'])
+            if new != src:
+                self.run.stats['mb_prefixed_programs'] += 1
+                src = new
+        return src
 
     def start(self):
         pass
